@@ -8,16 +8,16 @@ P = {
  "C01": ("E-TERM typed terms x all-valuations SQLite table vs R-EVAL", "§3 C01",
          "bounded-exhaustive enumeration of typed filters (all terms with <=k constructor nodes), each translated by the real SQLite dialect and executed on a table holding every valuation of the referenced columns; selected ids compared with a three-valued reference evaluator",
          "R-EVAL/R-PRINT oracles, SQLite 3.40 as the engine, value domains of Appendix B"),
- "C02": ("E-TERM typed terms + all ordered pairs of boolean-valued operands x all-valuations table through Django shorthand vs R-EVAL", "§3 C02",
+ "C02": ("E-TERM typed terms + all ordered pairs of boolean-valued operands + string concatenation through add x all-valuations table through Django shorthand vs R-EVAL", "§3 C02",
          "same enumeration as C01 over the Django-supported fragment, executed through apply_odata_query on a Django model backed by in-memory SQLite",
          "R-EVAL oracle, Django 6 + SQLite engine semantics"),
- "C03": ("E-TERM typed terms x 3 SQLAlchemy entry styles x keyword case vs R-EVAL", "§3 C03",
+ "C03": ("E-TERM typed terms (incl. string concatenation through add) x 3 SQLAlchemy entry styles x keyword case vs R-EVAL; two mapped classes of the same name filtered alternately", "§3 C03",
          "same enumeration over the SQLAlchemy fragment, three entry styles and keyword-case variants; results must match R-EVAL and each other",
          "R-EVAL oracle, SQLAlchemy 2.0 + SQLite engine semantics"),
  "C04": ("relational filter grammar x all small database instances vs relational R-EVAL; second schema (to_field key, non-default manager name, reverse one-to-one) x all its instances vs per-filter oracle", "§3 C04",
          "exhaustive enumeration of path/lambda filters up to the stated bound x product instance and all small instances, Django and SQLAlchemy results compared with a relational reference evaluator",
          "relational R-EVAL, SQLite engine"),
- "C05": ("exhaustive operator trees + BFS over real LR configurations + full action-table coverage vs precedence-climbing reference", "§3 C05",
+ "C05": ("exhaustive operator trees + long same-operator runs + BFS over real LR configurations + full action-table coverage vs precedence-climbing reference", "§3 C05",
          "every labelled operator tree up to k operator nodes in 3 parenthesisations, every LR configuration up to a token depth, every LALR action-table entry driven by a witness; judged by an independent printer/parser that knows only the spec table",
          "R-PRINT and the reference parser encode the OData precedence table correctly"),
  "C06": ("exhaustive literal/identifier spellings from the ABNF x 8 contexts", "§3 C06",
@@ -29,7 +29,7 @@ P = {
  "C08": ("all ORM filter skeletons k<=2 x all pairs of adversarial literal assignments; compiled SQL must be identical", "§3 C08",
          "compiled SQL text/params of Django and SQLAlchemy compared across literal assignments",
          "Django/SQLAlchemy compilers report the SQL and parameters they would send"),
- "C09": ("typed terms with unique leaves x 3 dialects x alias, parsed by independent SQL parser, span preservation; SQLite dialect statements prepared in SQLite; duration literals read component by component; keyword literals in every letter case; non-ASCII digit spellings", "§3 C09",
+ "C09": ("typed terms with unique leaves x 3 dialects x alias, parsed by independent SQL parser, span preservation; SQLite dialect statements prepared in SQLite; duration literals read component by component; keyword literals in every letter case; repeated list members; non-ASCII field names; non-ASCII digit spellings", "§3 C09",
          "exhaustive enumeration up to k constructor nodes; the emitted SQL must parse and mirror the filter tree",
          "R-SQL parser implements standard SQL precedence"),
  "C10": ("all atom strings up to k, BFS over LR configurations, constructor closure over abstract AST shapes, pumped cycles, all single edits", "§3 C10",
